@@ -57,7 +57,7 @@ def scoped_rules(ck, prop):
 
 
 # feature configurations re-analysed by the thorough tier (facts.CONFIGS): the rules are evaluated again on the program the other cfg selects
-THOROUGH_CONFIGS = {p: ['truncated'] for p in ('C01', 'C02', 'C03', 'C04', 'C05', 'C06', 'C07', 'C08', 'C09', 'C12', 'C14', 'C15', 'C16', 'C17', 'C18', 'C19', 'C20')}
+THOROUGH_CONFIGS = {p: ['truncated'] for p in ('C01', 'C02', 'C03', 'C04', 'C05', 'C06', 'C07', 'C08', 'C09', 'C12', 'C13', 'C14', 'C15', 'C16', 'C17', 'C18', 'C19', 'C20')}
 THOROUGH_CONFIGS.update({'C10': ['devcurves'], 'C11': ['devcurves']})
 
 
